@@ -38,5 +38,16 @@ if os.path.exists(p):
           f"the traces of a run must be byte-identical in all processes. Identical: {', '.join(sorted(ok)) or '-'}. Diverged: {', '.join(sorted(bad)) or 'none'}. "
           f"(evidence/selftest.json)")
 s = put("<!-- SELFTEST_BEGIN -->", "<!-- SELFTEST_END -->", st, s)
+# evidence summary
+rows = ["| id | tier / seed | runs | runs per hour | simulated time | fault kinds fired (total firings) | distinct abstract states | engine |", "|---|---|---|---|---|---|---|---|"]
+import glob
+for f in sorted(glob.glob(f"{ROOT}/evidence/C*.json")):
+    d = json.load(open(f)); c = d["coverage"]
+    ff = c.get("faults_fired", {})
+    rows.append(f"| {d['property_id']} | {d['tier']} / {d['seed']} | {c['evaluations']} | {c['runs_per_hour']} | {int(c['sim_time_s'])} s | {len(ff)} ({sum(ff.values())}) | {c['distinct_abstract_states_all_runs']} | {c['engine']} |")
+ev = "Committed evidence files (each written by the check itself on the unchanged tree):\n\n" + "\n".join(rows)
+if "<!-- EVIDENCE_BEGIN -->" not in s:
+    s = s.replace("<!-- SELFTEST_END -->", "<!-- SELFTEST_END -->\n\n<!-- EVIDENCE_BEGIN -->\n<!-- EVIDENCE_END -->", 1)
+s = put("<!-- EVIDENCE_BEGIN -->", "<!-- EVIDENCE_END -->", ev, s)
 open(f"{ROOT}/DESIGN.md", "w").write(s)
 print("caught", caught, "of", len(R))
